@@ -481,8 +481,22 @@ def _is_zero_fill_closure(cl):
 
 
 def fill_pattern(e):
-    """Recognise  X.iter_mut().for_each(|a| *a = V)  and the nested 2-level form.
+    """Recognise  X.iter_mut().for_each(|a| *a = V),  X.fill(V),  the nested 2-level forms
+    (X.iter_mut().for_each(|c| c.fill(V)), ..) and  `for c in X.iter_mut() { c.fill(V) }` / `{ *c = V }`.
     Returns (X, depth, V) or None."""
+    if e.get("k") == "mcall" and e["name"] == "fill" and len(e["args"]) == 1:
+        return e["recv"], 1, e["args"][0]
+    if e.get("k") == "for" and e["iter"].get("k") == "mcall" and e["iter"]["name"] == "iter_mut" and e["pat"].get("k") == "pident":
+        body = [s for s in e["body"]["stmts"]]
+        if len(body) == 1 and body[0]["k"] in ("semi", "expr"):
+            inner = body[0]["e"]
+            nm = e["pat"]["name"]
+            if inner.get("k") == "assign" and inner["l"].get("k") == "un" and inner["l"]["op"] == "*" and is_path(inner["l"]["e"], nm):
+                return e["iter"]["recv"], 1, inner["r"]
+            sub = fill_pattern(inner) if isinstance(inner, dict) else None
+            if sub and is_path(sub[0], nm):
+                return e["iter"]["recv"], sub[1] + 1, sub[2]
+        return None
     if e.get("k") != "mcall" or e["name"] != "for_each" or len(e["args"]) != 1:
         return None
     r = e["recv"]
@@ -770,6 +784,12 @@ class SymExec:
             if va is not None and vb is not None:
                 return va if same(va, vb) else N("ite", c=c, a=va, b=vb)
             return None
+        if k == "for":
+            fp = fill_pattern(e)
+            if fp is not None and is_self_field(fp[0]):
+                st.fields[fp[0]["name"]] = N("fill", depth=fp[1], v=self.eval(fp[2], st, depth), ln=e.get("ln", 0))
+                st.events.append(("fill", e, fp[0]["name"]))
+                return None
         if k in ("for", "while", "loop"):
             locs, flds = self.assigned_in(e)
             why = "loop@%s" % e.get("ln")
